@@ -11,17 +11,18 @@ export TMPDIR=/tmp/wt/tmp_$$; mkdir -p $TMPDIR
 TESTS=$(cd $WT && PYTHONPATH=$WT /venv/bin/python -m pytest -q -p no:cacheprovider --timeout=900 --continue-on-collection-errors 2>&1 | tail -1 | sed 's/\x1b\[[0-9;]*m//g')
 DEMO=na
 if [ -f $MDIR/demo.py ]; then
-  (cd $TMPDIR && PYTHONPATH=$WT timeout 300 /venv/bin/python $MDIR/demo.py >/dev/null 2>&1); DEMO_PATCHED=$?
-  (cd $TMPDIR && PYTHONPATH=/repo timeout 300 /venv/bin/python $MDIR/demo.py >/dev/null 2>&1); DEMO_CLEAN=$?
+  (cd $TMPDIR && PATH=/verif/shims/bin:$PATH PYTHONPATH=$WT:/verif/shims timeout 300 /venv/bin/python $MDIR/demo.py >/dev/null 2>&1); DEMO_PATCHED=$?
+  (cd $TMPDIR && PATH=/verif/shims/bin:$PATH PYTHONPATH=/repo:/verif/shims timeout 300 /venv/bin/python $MDIR/demo.py >/dev/null 2>&1); DEMO_CLEAN=$?
   DEMO="patched=$DEMO_PATCHED clean=$DEMO_CLEAN"
 fi
 OUT=""
 for C in $CHECKS; do
-  LOG=/tmp/wt/log_$$_$C.txt
+  LOG=/tmp/wt/log_$$_$C.txt; mkdir -p /tmp/wt/logs
   (cd /verif && VERIF_REPO=$WT timeout 1200 ./check $C --tier quick > $LOG 2>&1); RC=$?
   V=$(grep -c "^VIOLATION" $LOG)
   B=$(grep -m1 "bucket=" $LOG | cut -c1-160)
   OUT="$OUT | $C rc=$RC violations=$V $B"
 done
 rm -rf $TMPDIR
+rm -f /tmp/wt/apply_err_$$
 echo "RESULT $MDIR tests=[$TESTS] demo=[$DEMO]$OUT"
